@@ -49,7 +49,25 @@ def explore(body, bound, bounding="delay", cap=None, on_exec=None, root=(), sche
         if cap is not None and res.executions >= cap:
             res.capped = True
             break
-        ex = S.run_once(body, prefix=prefix, expect_ns=expect, **sched_kw)
+        try:
+            ex = S.run_once(body, prefix=prefix, expect_ns=expect, **sched_kw)
+        except S.ReplayDivergence as e:
+            # The same choice prefix did not lead to the same execution: behaviour depends on something the
+            # scheduler does not own.  Never ignored: reported to the harness as an execution with outcome
+            # "divergence" (every harness turns a non-"ok" outcome into a VIOLATION), subtree not expanded.
+            # (Seen only on changed trees, where a desynchronised stream is decoded with random key material.)
+            install.cleanup_after_execution()
+            if on_exec is None:
+                raise
+            ex = S.Execution()
+            ex.outcome, ex.error, ex.value = "divergence", e, None
+            ex.points, ex.choices, ex.trace, ex.steps, ex.vtime = [], list(prefix), [], 0, 0.0
+            ex.deadlock_info, ex.dirty = None, False
+            res.executions += 1
+            res.outcomes["divergence"] = res.outcomes.get("divergence", 0) + 1
+            if on_exec(ex):
+                break
+            continue
         install.cleanup_after_execution()
         is_root = len(prefix) == len(root)
         silent = is_root and shard is not None and shard[0] != 0
